@@ -84,4 +84,23 @@ func init() {
 		{"rank-unchecked-sum", "comb/comb.go", "\t\trank, overflow = addHasOverflowed(rank, c)\n", "\t\trank += c\n", "OVF:comb.Rank"},
 		{"checked-add-test-removed", "comb/comb.go", "\tif (sum^a)&(sum^b) < 0 {\n\t\treturn sum, true\n\t}\n\treturn sum, false\n}\n\n//CoeffUint64", "\treturn sum, false\n}\n\n//CoeffUint64", "OVF:comb.addHasOverflowed"},
 	}
+	mutants["C18"] = []mutant{
+		{"union-links-element-not-root", "disjoint/disjoint_set.go", "\tif ds[parentX] < ds[parentY] {\n\t\tds[parentY] = parentX\n\t} else if ds[parentY] < ds[parentX] {\n\t\tds[parentX] = parentY\n\t} else {\n\t\tds[parentX] = parentY\n\t\tds[parentY]--\n\t}\n}\n\n//UnionBuffered", "\tif ds[parentX] < ds[parentY] {\n\t\tds[y] = parentX\n\t} else if ds[parentY] < ds[parentX] {\n\t\tds[parentX] = parentY\n\t} else {\n\t\tds[parentX] = parentY\n\t\tds[parentY]--\n\t}\n}\n\n//UnionBuffered", "ROOTLINK:(*disjoint.Set).Union"},
+		{"buffered-union-bumps-linked-root", "disjoint/disjoint_set.go", "\t\tds[parentX] = parentY\n\t\tds[parentY]--\n\t}\n}\n\n//Sets", "\t\tds[parentX] = parentY\n\t\tds[parentX]--\n\t}\n}\n\n//Sets", "ROOTLINK:(*disjoint.Set).UnionBuffered"},
+		{"union-stores-rank-sum", "disjoint/disjoint_set.go", "\t\tds[parentX] = parentY\n\t\tds[parentY]--\n\t}\n}\n\n//UnionBuffered", "\t\tds[parentY] += ds[parentX]\n\t\tds[parentX] = parentY\n\t}\n}\n\n//UnionBuffered", "ROOTLINK:(*disjoint.Set).Union"},
+		{"find-compresses-to-parent-entry", "disjoint/disjoint_set.go", "\t\t\tfor i := 0; i < len(seenNumbers)-2; i++ {\n\t\t\t\tds[seenNumbers[i]] = tmp\n\t\t\t}\n\t\t\treturn tmp\n\t\t}\n\t\tseenNumbers = append(seenNumbers, currentPlace)\n\t}\n}\n\n//FindBuffered", "\t\t\tfor i := 0; i < len(seenNumbers)-2; i++ {\n\t\t\t\tds[seenNumbers[i]] = seenNumbers[i+2]\n\t\t\t}\n\t\t\treturn tmp\n\t\t}\n\t\tseenNumbers = append(seenNumbers, currentPlace)\n\t}\n}\n\n//FindBuffered", "COMPRESS:(*disjoint.Set).Find"},
+		{"findbuffered-writes-marker", "disjoint/disjoint_set.go", "\tseenNumbers := buf[:1]\n\tseenNumbers[0] = x\n", "\tseenNumbers := buf[:1]\n\tseenNumbers[0] = x\n\tds[x] = ds[x] + 0\n", "COMPRESS:(*disjoint.Set).FindBuffered"},
+		{"roots-compacts-in-place", "disjoint/disjoint_set.go", "\troots := make([]int, 0, 1)\n\tfor i, v := range ds {\n\t\tif v < 0 {", "\troots := make([]int, 0, 1)\n\tfor i, v := range ds {\n\t\tif v < -1 {\n\t\t\tds[i] = -1\n\t\t}\n\t\tif v < 0 {", "WRITE-SCOPE:(*disjoint.Set).Roots"},
+	}
+	mutants["C14"] = []mutant{
+		{"root-child-count-raw-byte", "dawg/dawg.go", "\tbuf = encodeUint64(uint64(len(t.linkLabels)), buf)\n\tb = append(b, buf...)\n", "\tb = append(b, byte(len(t.linkLabels)))\n", "GRAMMAR:(*dawg.Dawg).GobEncode:record token"},
+		{"inner-child-count-raw-byte", "dawg/dawg.go", "\t\t\t\tbuf = encodeUint64(uint64(len(linkDawg.linkLabels)), buf)\n\t\t\t\tb = append(b, buf...)\n", "\t\t\t\tb = append(b, byte(len(linkDawg.linkLabels)))\n", "GRAMMAR:(*dawg.Dawg).GobEncode:record token"},
+		{"numwords-dropped-from-inner-records", "dawg/dawg.go", "\t\t\t\tbuf = encodeUint64(uint64(linkDawg.numWords), buf)\n\t\t\t\tb = append(b, buf...)\n", "", "GRAMMAR:(*dawg.Dawg).GobEncode:record token"},
+		{"decoder-reads-final-as-varint", "dawg/dawg.go", "\t\tfinal, err := r.ReadByte()\n", "\t\tfinal, _, err := decodeUint64(r, buf)\n", "GRAMMAR:(*dawg.Dawg).GobEncode:record token"},
+		{"decoder-label-after-target", "dawg/dawg.go", "\t\t\tlabel, err := r.ReadByte()\n\t\t\tif err != nil {\n\t\t\t\treturn err\n\t\t\t}\n\t\t\ttarget, _, err := decodeUint64(r, buf)\n\t\t\tif err != nil {\n\t\t\t\treturn err\n\t\t\t}\n", "\t\t\ttarget, _, err := decodeUint64(r, buf)\n\t\t\tif err != nil {\n\t\t\t\treturn err\n\t\t\t}\n\t\t\tlabel, err := r.ReadByte()\n\t\t\tif err != nil {\n\t\t\t\treturn err\n\t\t\t}\n", "GRAMMAR:(*dawg.Dawg).GobEncode:record token"},
+		{"varint-threshold-mismatch", "dawg/dawg.go", "\tif x <= 127 {\n\t\tbuf[0] = uint8(x)", "\tif x <= 128 {\n\t\tbuf[0] = uint8(x)", "VARINT:dawg.varint:single-byte threshold"},
+		{"varint-prefix-base-shifted", "dawg/dawg.go", "\tn = int(b) - 128\n", "\tn = int(b) - 127\n", "VARINT:dawg.varint:prefix base"},
+		{"varint-decoder-length-cap", "dawg/dawg.go", "\tif n > 8 {\n", "\tif n > 7 {\n", "VARINT:dawg.varint:max length"},
+		{"varint-little-endian-encoder", "dawg/dawg.go", "byte(x >> uint(8*(7-(i+zeroBytes))))", "byte(x >> uint(8*(6-(i+zeroBytes))))", "VARINT:dawg.varint:byte order"},
+	}
 }
